@@ -17,6 +17,7 @@ mod map;
 mod native;
 mod poseidon;
 mod pubin;
+#[cfg(has_h13)]
 mod sha256pad;
 mod vector;
 mod zkirfam;
@@ -208,6 +209,7 @@ fn main() {
         "map" => map::main_arm(spec, k, replay),
         "vector" => vector::main_arm(spec, k, replay),
         "pubin" => pubin::main_arm(spec, k, replay),
+        #[cfg(has_h13)]
         "sha256pad" => sha256pad::main_arm(spec, k, replay),
         _ => panic!("unknown family {family}"),
     }
